@@ -285,6 +285,38 @@ func sharedListsCrossImportCases(col *Collector) {
 	}
 }
 
+// the root file lives in the directory it imports (`import: ["."]`) next to YAML files sorted before and after it:
+// whatever its format, the same definitions load
+func rootInImportedDirCases(col *Collector) {
+	for _, rootName := range []string{"m", "a0", "zz"} {
+		ref := ""
+		for _, f := range formats {
+			dir := newScratchDir("c16r")
+			os.WriteFile(filepath.Join(dir, "b.yaml"), []byte("tasks:\n  alpha: {command: [\"echo alpha\"]}\n"), 0644)
+			os.WriteFile(filepath.Join(dir, "y.yaml"), []byte("tasks:\n  zeta: {command: [\"echo zeta\"]}\n"), 0644)
+			root := map[string]interface{}{"import": []interface{}{"."}, "tasks": map[string]interface{}{"main": map[string]interface{}{"command": []interface{}{"echo main"}}}}
+			text, _ := serialise(root, f)
+			os.WriteFile(filepath.Join(dir, rootName+"."+f), []byte(text), 0644)
+			r := runTaskctl(dir, nil, 15*time.Second, "-c", filepath.Join(dir, rootName+"."+f), "list", "tasks")
+			names := strings.Fields(r.stdout) // `list tasks` prints them in no particular order
+			sort.Strings(names)
+			obs := fmt.Sprintf("exit=%d tasks=%s", r.exit, strings.Join(names, ","))
+			cs := Case{Tags: []string{"cross-import", "root-in-imported-dir"}, NonTrivial: true, Impl: obs,
+				Replay: fmt.Sprintf("%s.%s with import [\".\"] in a directory holding b.yaml (task alpha) and y.yaml (task zeta)", rootName, f)}
+			if ref == "" {
+				ref = obs
+				if obs != "exit=0 tasks=alpha,main,zeta" {
+					cs.Fail, cs.Sig = "the YAML root gives ["+obs+"], expected the three tasks", "c16-cross-import"
+				}
+			} else if obs != ref {
+				cs.Fail, cs.Sig = fmt.Sprintf("root in %s gives [%s], the YAML root gives [%s]", f, obs, ref), "c16-cross-import"
+			}
+			col.Add(cs)
+			os.RemoveAll(dir)
+		}
+	}
+}
+
 func runC16(col *Collector, tier string, seed int64) {
 	loaderReuseCases(col, "C16", []string{"yaml", "json", "toml"}, []string{"missing", "unparsable"})
 	rng := rand.New(rand.NewSource(seed))
@@ -322,6 +354,7 @@ func runC16(col *Collector, tier string, seed int64) {
 	}
 	parallel(len(jobs), 8, func(i int) { fmtCase(col, jobs[i].cfg, jobs[i].tasks, jobs[i].pipes, jobs[i].tag, jobs[i].run) })
 	sharedListsCrossImportCases(col)
+	rootInImportedDirCases(col)
 	for _, fa := range formats {
 		for _, fb := range formats {
 			crossImportCase(col, rng, fa, fb, false, false, false)
